@@ -38,7 +38,7 @@ def gen_case(rng, supervised):
     prior = gen.grid(A.T.dot(A) + np.eye(d), bits=5)
   else:
     prior = prior_kind
-  prior_arg = prior.copy() if isinstance(prior, np.ndarray) else prior      # what the estimator gets
+  prior_arg = gen.layout(rng, prior) if isinstance(prior, np.ndarray) else prior      # what the estimator gets (any memory layout)
   seed = int(rng.integers(1000))
   mode = str(rng.choice(['run', 'run', 'few', 'prior_feasible']))
   tol = float(rng.choice([1e-3, 1e-5]))
